@@ -195,7 +195,10 @@ class NuWiki:
                 return page
 
         oldname = name
-        name = self.redirects.get(name, name)
+        seen = set()
+        while name in self.redirects and name not in seen:
+            seen.add(name)
+            name = self.redirects[name]
 
         return self.revisions.get(name) or self.revisions.get(oldname)
 
